@@ -76,9 +76,6 @@ def run(rep):
                 ss = st
                 if lname != 'mem':
                     ss = [s for s in st if 'where' not in s['tag'] and 'agg' not in s['tag']] if quick else st
-                    # an empty Parquet table under a join is C04's subject (layout-dependent failure); keep answers only
-                    if not lrows or not rrows:
-                        ss = [dict(s, strict=False) for s in ss]
                 ss = [dict(s, want_plan=(i % 40 == 0)) for i, s in enumerate(ss)]
                 units.append({'db': db, 'stmts': ss})
         # asymmetric sizes: the planner builds LEFT/SEMI/ANTI joins on the right side only when left rows > 2 x right rows, and a
